@@ -78,6 +78,8 @@ pub struct PairStats {
     pub chatter: bool,
     pub probe_classes: Vec<String>,
     pub probes: u64,
+    /// sessions that added nothing although the requester lacked commands of the responder
+    pub fruitless: Vec<String>,
 }
 
 fn state_key(a: &NodeSet, b: &NodeSet, dir: u8, p: &Pair<'_>) -> u64 {
@@ -135,17 +137,14 @@ fn step(
     let gained = new_req.minus(cur_req).count();
     st.redundant += out.delivered.iter().filter(|&&i| cur_req.has(i)).count() as u64;
     if !missing.is_empty() && gained == 0 {
-        st.c16.push((
-            "no-progress".into(),
-            format!(
-                "session {} ({who}) added none of the {} missing commands {} (sample {} addresses, {} responses, {} delivered: all already held)",
-                st.sessions,
-                missing.count(),
-                missing.show(),
-                out.sample,
-                out.responses,
-                out.delivered.len()
-            ),
+        st.fruitless.push(format!(
+            "session {} ({who}) added none of the {} missing commands {} (sample of {} addresses, {} responses, {} commands delivered, all already held)",
+            st.sessions,
+            missing.count(),
+            missing.show(),
+            out.sample,
+            out.responses,
+            out.delivered.len()
         ));
     }
     *cur_req = new_req;
@@ -153,10 +152,11 @@ fn step(
 }
 
 /// Buffer-size probe (C17): replay the recorded request against the responder's replica with
-/// too-small target buffers before every message; the retry with an exact-size buffer must give
-/// byte-identical messages (nothing lost, nothing duplicated, same indexes).
-fn buffer_probe(p: &Pair<'_>, st: &mut PairStats, resp: &mut Peer, reference: &Outcome, bufs: &mut Bufs) {
-    if reference.request.is_empty() || reference.messages.is_empty() {
+/// too-small target buffers before every message; the retry with a full-size buffer must give the
+/// byte-identical message of the undisturbed session (nothing lost, skipped or re-indexed), and
+/// the session must still end with its end message.
+fn buffer_probe(_p: &Pair<'_>, st: &mut PairStats, resp: &mut Peer, reference: &Outcome, bufs: &mut Bufs) {
+    if reference.request.is_empty() || reference.messages.is_empty() || !reference.faults.is_empty() {
         return;
     }
     let mut responder = SyncResponder::new();
@@ -168,14 +168,23 @@ fn buffer_probe(p: &Pair<'_>, st: &mut PairStats, resp: &mut Peer, reference: &O
         }
         _ => return,
     }
+    let brief = |bytes: &[u8]| match dec_resp(bytes) {
+        Ok((WResp::SyncResponse { response_index, commands, .. }, _)) => {
+            format!("SyncResponse#{response_index} with {} commands starting at {:02x}..", commands.len(), commands.first().map(|c| c.id.as_bytes()[0]).unwrap_or(0))
+        }
+        Ok((WResp::SyncEnd { max_index, .. }, _)) => format!("SyncEnd(max_index {max_index})"),
+        Ok((o, _)) => format!("{o:?}"),
+        Err(e) => format!("unreadable ({e})"),
+    };
     let mut cache = PeerCache::new();
     st.probes += 1;
     for (k, want) in reference.messages.iter().enumerate() {
-        let hdr = match dec_resp(want) {
-            Ok((WResp::SyncResponse { .. }, off)) => off,
-            Ok((_, off)) => off,
+        let (is_end, hdr) = match dec_resp(want) {
+            Ok((WResp::SyncResponse { .. }, off)) => (false, off),
+            Ok((_, off)) => (true, off),
             Err(e) => mcx::machinery_error(&format!("probe: mirror cannot read a real response: {e}")),
         };
+        let lost = if is_end { "end-message-lost-after-small-buffer" } else { "commands-lost-after-small-buffer" };
         let mut sizes = vec![0usize, hdr.saturating_sub(1), hdr, want.len().saturating_sub(1)];
         sizes.sort();
         sizes.dedup();
@@ -186,35 +195,32 @@ fn buffer_probe(p: &Pair<'_>, st: &mut PairStats, resp: &mut Peer, reference: &O
             st.steps += 1;
             match responder.poll(&mut bufs.resp[..sz], resp.r.client.provider(), &mut cache, &mut resp.r.buffers.traversal) {
                 Ok(n) => {
-                    st.c17.push(("small-buffer-accepted".into(), format!("poll #{k} into a {sz}-byte buffer returned Ok({n}) for a {}-byte message", want.len())));
+                    // a message that fits where the undisturbed one does not is a different message
+                    st.c17.push((
+                        lost.into(),
+                        format!("after too-small buffers, poll #{k} into a {sz}-byte buffer produced {} although the undisturbed session sends {} ({} bytes) at this point", brief(&bufs.resp[..n]), brief(want), want.len()),
+                    ));
                     return;
                 }
                 Err(e) => st.probe_classes.push(sync_err_class(&e).to_string()),
             }
             if !responder.ready() {
-                st.c17.push(("small-buffer-killed-session".into(), format!("after a too-small buffer ({sz} bytes) for message #{k} the responder is no longer ready")));
+                st.c17.push((
+                    lost.into(),
+                    format!("a {sz}-byte buffer for message #{k} ({}) left the responder not ready: the message can no longer be obtained", brief(want)),
+                ));
                 return;
             }
         }
         st.steps += 1;
-        match responder.poll(&mut bufs.resp[..want.len()], resp.r.client.provider(), &mut cache, &mut resp.r.buffers.traversal) {
+        match responder.poll(&mut bufs.resp, resp.r.client.provider(), &mut cache, &mut resp.r.buffers.traversal) {
             Ok(n) if bufs.resp[..n] == want[..] => {}
             Ok(n) => {
-                let (got, _) = dec_resp(&bufs.resp[..n]).unwrap_or((WResp::EndSession { session_id: 0 }, 0));
-                let (exp, _) = dec_resp(want).unwrap_or((WResp::EndSession { session_id: 0 }, 0));
-                let brief = |m: &WResp| match m {
-                    WResp::SyncResponse { response_index, commands, .. } => format!("SyncResponse#{response_index} with {} commands", commands.len()),
-                    WResp::SyncEnd { max_index, .. } => format!("SyncEnd(max_index {max_index})"),
-                    o => format!("{o:?}"),
-                };
-                st.c17.push((
-                    "small-buffer-lost-commands".into(),
-                    format!("after BufferTooSmall retries, message #{k} is {} but the undisturbed session sent {}", brief(&got), brief(&exp)),
-                ));
+                st.c17.push((lost.into(), format!("after BufferTooSmall retries, message #{k} is {} but the undisturbed session sent {}", brief(&bufs.resp[..n]), brief(want))));
                 return;
             }
             Err(e) => {
-                st.c17.push(("exact-buffer-rejected".into(), format!("poll #{k} into an exact-size buffer ({} bytes) failed: {e}", want.len())));
+                st.c17.push((lost.into(), format!("after BufferTooSmall retries, poll #{k} into a full-size buffer failed ({e}); the undisturbed session sent {}", brief(want))));
                 return;
             }
         }
@@ -236,6 +242,10 @@ pub fn run_pair(p: &Pair<'_>, seed: u64) -> PairStats {
     let budget = cur_b.minus(&cur_a).count() as u64;
     let mut first = true;
     let mut n1 = 0u64;
+    // a fruitless session is a violation by itself; keep going to see whether delivery ever
+    // resumes (persistent caches change between sessions; PEER_HEAD_MAX + 2 tries)
+    let patience = rtlib::rt::PEER_HEAD_MAX as u64 + 2;
+    let mut dry = 0u64;
     while !cur_b.subset_of(&cur_a) {
         let keep = first && p.probe;
         let (out, gained) = step(p, &mut st, &mut a, &mut b, &mut cur_a, &cur_b, 0, &rng, &mut bufs, keep);
@@ -244,37 +254,51 @@ pub fn run_pair(p: &Pair<'_>, seed: u64) -> PairStats {
         }
         first = false;
         n1 += 1;
-        if gained == 0 {
-            break; // reported by `step`; do not loop forever
+        dry = if gained == 0 { dry + 1 } else { 0 };
+        if dry >= patience || (dry >= 2 && !p.cfg.persistent) {
+            // fresh caches: the second fruitless session starts from the identical state
+            st.c16.push((
+                "never-delivered".into(),
+                format!("{dry} consecutive sessions A<-B added nothing; A still lacks {} of B's commands: {}; first fruitless session: {}", cur_b.minus(&cur_a).count(), cur_b.minus(&cur_a).show(), st.fruitless.first().cloned().unwrap_or_default()),
+            ));
+            return st;
         }
     }
     st.max_sessions_needed = n1;
-    if !st.c16.is_empty() {
-        return st;
-    }
-    if n1 > budget {
+    if st.fruitless.is_empty() && n1 > budget {
         st.c16.push(("too-many-sessions".into(), format!("{n1} sessions for {budget} missing commands")));
     }
 
     // phase 2: alternate directions until a round transfers nothing
-    let bound = 2 * w.n() + 4;
+    let bound = 2 * w.n() + 4 + 2 * patience as usize;
     let mut quiet = false;
+    let mut redundant_only = false;
     for _ in 0..bound {
-        let (o1, _) = step(p, &mut st, &mut b, &mut a, &mut cur_b, &cur_a, 1, &rng, &mut bufs, false);
-        let (o2, _) = step(p, &mut st, &mut a, &mut b, &mut cur_a, &cur_b, 0, &rng, &mut bufs, false);
-        if !st.c16.is_empty() {
-            return st;
-        }
+        let (o1, g1) = step(p, &mut st, &mut b, &mut a, &mut cur_b, &cur_a, 1, &rng, &mut bufs, false);
+        let (o2, g2) = step(p, &mut st, &mut a, &mut b, &mut cur_a, &cur_b, 0, &rng, &mut bufs, false);
         if o1.delivered.is_empty() && o2.delivered.is_empty() {
             quiet = true;
             break;
         }
+        if cur_a == cur_b && g1 + g2 == 0 {
+            // both hold the same commands and the round only re-delivered commands already held:
+            // no later session can change either committed graph, so the end state is reached
+            redundant_only = true;
+            break;
+        }
+    }
+    if let Some(f) = st.fruitless.first() {
+        st.c16.push(("session-without-progress".into(), format!("{f} ({} such sessions for this pair)", st.fruitless.len())));
+    }
+    if cur_a != cur_b {
+        st.c16.push((
+            if quiet { "quiescent-but-different".into() } else { "no-convergence".into() },
+            format!("after {} in both directions A holds {} and B holds {}", if quiet { "a round that transferred nothing".to_string() } else { format!("{bound} rounds") }, cur_a.show(), cur_b.show()),
+        ));
+        return st;
     }
     if !quiet {
-        if cur_a != cur_b {
-            st.c16.push(("no-convergence".into(), format!("after {bound} rounds in both directions A holds {} and B holds {}", cur_a.show(), cur_b.show())));
-            return st;
-        }
+        let _ = redundant_only;
         st.chatter = true; // both hold everything but already-held commands keep flowing: the statement is silent
     }
     match (a.r.observe(), b.r.observe()) {
@@ -314,8 +338,8 @@ fn fold(acc: &mut Acc, p: &Pair<'_>, st: PairStats, prop: &str, states: &mut Has
     for s in st.states {
         states.insert(s);
     }
-    let cm = acc.counters.entry("max_sessions_needed".into()).or_insert(0);
-    *cm = (*cm).max(st.max_sessions_needed);
+    acc.maximum("max_sessions_for_one_direction", st.max_sessions_needed);
+    acc.count("sessions_without_progress", st.fruitless.len() as u64);
     if st.converged {
         acc.outcome(if st.chatter { "converged-with-redundant-traffic" } else { "converged" }, 1);
         acc.count("converged_pairs", 1);
@@ -335,7 +359,7 @@ fn small_universe_opts(tier: Tier) -> UniverseOpts {
         n_min: 1,
         n_max: tier.pick(5, 6),
         prios: vec![0, 1],
-        prio_upto: tier.pick(4, 5),
+        prio_upto: tier.pick(3, 5),
         full_rank_perms_upto: tier.pick(5, 5),
         merge_ranks: vec![MergeRank::Low, MergeRank::High, MergeRank::Hash],
     }
@@ -357,6 +381,10 @@ fn run_small(args: &Args, prop: &str, acc: &mut Acc, states_total: &mut u64, rep
         Tier::Thorough => vec![(Layout::Coarse, Layout::Coarse), (Layout::Fine, Layout::Fine), (Layout::Coarse, Layout::Fine), (Layout::Fine, Layout::Coarse)],
     };
     let seed = args.seed;
+    // quick: the largest universes run the two configurations the shipped drivers use
+    // (one-shot + persistent cache: aranya-tcp-syncer / dsl; full + fresh cache: run_full_session)
+    let reduced_cfgs = args.tier == Tier::Quick;
+    rep.set("configurations_for_largest_universes", if reduced_cfgs { "oneshot/persistent, full/fresh" } else { "all four" });
     let results: Vec<(Acc, u64)> = us
         .into_par_iter()
         .map(|(label, dag)| {
@@ -370,6 +398,9 @@ fn run_small(args: &Args, prop: &str, acc: &mut Acc, states_total: &mut u64, rep
                 for sa in std::iter::once(&empty).chain(subsets.iter()) {
                     for &(la, lb) in &layouts {
                         for cfg in CFGS {
+                            if reduced_cfgs && w.n() >= 5 && !(cfg == CFGS[0] || cfg == CFGS[3]) {
+                                continue;
+                            }
                             let p = Pair { w: &w, sa, sb, la, lb, cfg, name: show_pair(sa, sb), probe: cfg.mode == Mode::Full && !cfg.persistent };
                             let st = run_pair(&p, seed);
                             if !sampled && w.n() >= 4 && st.sessions > 3 && st.converged {
@@ -411,6 +442,9 @@ fn fan_variants(w: &World, k: usize, len: usize) -> Vec<(String, NodeSet, NodeSe
         let bh = if len >= 2 { b_half } else { NodeSet::from_iter(n, (0..n).filter(|&i| i != fan_node(len, 0, 0))) };
         bs.push(("all-but-tail-of-branch0".to_string(), bh));
     }
+    if len >= 3 {
+        bs.push(("all-but-tip-of-branch0".to_string(), NodeSet::from_iter(n, (0..n).filter(|&i| i != fan_node(len, 0, len - 1)))));
+    }
     let mut avs: Vec<(String, NodeSet)> = vec![("absent".into(), NodeSet::empty(n)), ("init".into(), NodeSet::from_iter(n, [0]))];
     for (num, den) in [(1usize, 3usize), (2, 3)] {
         let pl = len * num / den;
@@ -443,7 +477,7 @@ fn grid_shapes(flavour: &str, tier: Tier) -> Vec<(usize, usize)> {
     if flavour == "S" {
         // crossing 20 sampled heads, 5 commands per response, 10 segments per session
         let ks = [1usize, 2, 3, 5, 11, 12, 21, 22, 25];
-        let ls = [1usize, 2, 3, 4, 6, 8, 12, 13, 25];
+        let ls = [1usize, 2, 3, 4, 6, 7, 8, 12, 13, 25];
         let cap = tier.pick(26, 40);
         let mut v = Vec::new();
         for &k in &ks {
@@ -482,6 +516,7 @@ fn run_grids(args: &Args, prop: &str, flavour: &str, acc: &mut Acc, states_total
     rep.count("grid_pairs", jobs.len() as u64);
     let seed = args.seed;
     let same_layout_only = flavour == "P";
+    let quick = args.tier == Tier::Quick;
     let results: Vec<(Acc, u64)> = jobs
         .into_par_iter()
         .map(|j| {
@@ -490,6 +525,10 @@ fn run_grids(args: &Args, prop: &str, flavour: &str, acc: &mut Acc, states_total
             for &la in &layouts {
                 for &lb in &layouts {
                     if same_layout_only && la != lb {
+                        continue;
+                    }
+                    // quick: equal layouts plus the two extreme mixed ones
+                    if quick && la != lb && !(matches!((la, lb), (Layout::Chunk(1), Layout::Coarse) | (Layout::Coarse, Layout::Chunk(1)))) {
                         continue;
                     }
                     for cfg in CFGS {
@@ -517,10 +556,16 @@ pub fn run(args: &Args, prop: &str) {
     let mut rep = Report::new(args, Level::ModelChecking);
     let mut acc = Acc::default();
     let mut states = 0u64;
+    let t0 = std::time::Instant::now();
     if flavour == "S" {
         run_small(args, prop, &mut acc, &mut states, &mut rep);
     }
+    let t_small = t0.elapsed().as_secs_f64();
+    let ex_small = acc.counters.get("executions").copied().unwrap_or(0);
     run_grids(args, prop, &flavour, &mut acc, &mut states, &mut rep);
+    rep.set("wall_small_universes_s", (t_small * 10.0).round() / 10.0);
+    rep.set("wall_grids_s", ((t0.elapsed().as_secs_f64() - t_small) * 10.0).round() / 10.0);
+    rep.set("executions_small_universes", ex_small);
     acc.into_report(&mut rep);
     rep.set("states", states);
     let ex = rep.counter("executions");
